@@ -660,3 +660,191 @@ func ruleQuant(p *Prog, r *Report) {
 func init() {
 	register("C02", "", ruleQuant)
 }
+
+// ---- R-ALLSTORED: every comparator that was parsed is kept in the range -----------------------------------
+//
+// R-QUANT and R-OPSWITCH decide how Contains folds the stored comparators; they say nothing about a
+// constructor that stores fewer comparators than were written. The value stored in the range's list
+// field(s) must be built by appending parse results: phis, appends, literals and the results of parse
+// helpers are followed; a function that takes the parsed list (a parameter of the field's type) and returns
+// a list that is not that parameter itself or an append to it is a list transformer and is reported -
+// it can drop, merge or replace comparators ("tighten", "simplify", "dedupe").
+func ruleAllStored(p *Prog, r *Report) {
+	n := 0
+	for _, e := range p.Ecos {
+		if e.NewRng == nil || e.RngT == nil {
+			continue
+		}
+		st, ok := e.RngT.Underlying().(*types.Struct)
+		if !ok {
+			continue
+		}
+		key := e.Name + ": every parsed comparator is stored in the range"
+		var bad []string
+		checked := 0
+		var okVal func(v ssa.Value, ft types.Type, seen map[ssa.Value]bool, depth int) string
+		okFn := func(g *ssa.Function, k int, ft types.Type, seen map[ssa.Value]bool, depth int) string {
+			// a list transformer: a parameter of the field's own type
+			for _, prm := range g.Params {
+				if types.Identical(prm.Type(), ft) {
+					onlyAppends := true
+					for _, b := range g.Blocks {
+						ret, ok := b.Instrs[len(b.Instrs)-1].(*ssa.Return)
+						if !ok || k >= len(ret.Results) {
+							continue
+						}
+						rv := ret.Results[k]
+						for {
+							if rv == ssa.Value(prm) {
+								break
+							}
+							base, _, isApp := appendOfOne(rv)
+							if isApp {
+								rv = base
+								continue
+							}
+							if c, ok := rv.(*ssa.Call); ok {
+								if bi, ok := c.Call.Value.(*ssa.Builtin); ok && bi.Name() == "append" {
+									rv = c.Call.Args[0]
+									continue
+								}
+							}
+							if ph, ok := rv.(*ssa.Phi); ok && len(ph.Edges) > 0 {
+								// accumulator phi: follow the edge from outside the loop
+								next := ssa.Value(nil)
+								for _, ed := range ph.Edges {
+									if ed == ssa.Value(prm) {
+										next = ed
+									}
+								}
+								if next != nil {
+									rv = next
+									continue
+								}
+							}
+							onlyAppends = false
+							break
+						}
+					}
+					if !onlyAppends {
+						return fmt.Sprintf("the list passes through %s, which takes the parsed list and returns another one: comparators can be dropped or replaced there", g.Name())
+					}
+				}
+			}
+			for _, b := range g.Blocks {
+				if ret, ok := b.Instrs[len(b.Instrs)-1].(*ssa.Return); ok && k < len(ret.Results) {
+					if w := okVal(ret.Results[k], ft, seen, depth+1); w != "" {
+						return w
+					}
+				}
+			}
+			return ""
+		}
+		okVal = func(v ssa.Value, ft types.Type, seen map[ssa.Value]bool, depth int) string {
+			if seen[v] || depth > 8 {
+				return ""
+			}
+			seen[v] = true
+			switch x := v.(type) {
+			case *ssa.Const, *ssa.MakeSlice, *ssa.Slice, *ssa.Alloc:
+				return ""
+			case *ssa.Phi:
+				for _, ed := range x.Edges {
+					if w := okVal(ed, ft, seen, depth+1); w != "" {
+						return w
+					}
+				}
+				return ""
+			case *ssa.Call:
+				if bi, ok := x.Call.Value.(*ssa.Builtin); ok && bi.Name() == "append" {
+					return okVal(x.Call.Args[0], ft, seen, depth+1)
+				}
+				if g := x.Call.StaticCallee(); g != nil && p.IsRepoFn(g) && g.Blocks != nil {
+					return okFn(g, 0, ft, seen, depth)
+				}
+				return ""
+			case *ssa.Extract:
+				if c, ok := x.Tuple.(*ssa.Call); ok {
+					if g := c.Call.StaticCallee(); g != nil && p.IsRepoFn(g) && g.Blocks != nil {
+						return okFn(g, x.Index, ft, seen, depth)
+					}
+				}
+				return ""
+			case *ssa.Parameter:
+				fn := x.Parent()
+				idx := -1
+				for i, q := range fn.Params {
+					if q == x {
+						idx = i
+					}
+				}
+				if nd := p.CG.Nodes[fn]; nd != nil && idx >= 0 {
+					for _, ce := range nd.In {
+						if ce.Site != nil && idx < len(ce.Site.Common().Args) && p.IsRepoFn(ce.Caller.Func) {
+							if w := okVal(ce.Site.Common().Args[idx], ft, seen, depth+1); w != "" {
+								return w
+							}
+						}
+					}
+				}
+				return ""
+			case *ssa.UnOp:
+				if al, ok := x.X.(*ssa.Alloc); ok && x.Op == token.MUL {
+					for _, ref := range *al.Referrers() {
+						if sto, ok := ref.(*ssa.Store); ok && sto.Addr == ssa.Value(al) {
+							if w := okVal(sto.Val, ft, seen, depth+1); w != "" {
+								return w
+							}
+						}
+					}
+				}
+				return ""
+			}
+			return ""
+		}
+		for _, fn := range p.RepoReachable(e.NewRng) {
+			if fn.Pkg == nil || fn.Pkg.Pkg != e.RngT.Obj().Pkg() {
+				continue
+			}
+			for _, b := range fn.Blocks {
+				for _, ins := range b.Instrs {
+					sto, ok := ins.(*ssa.Store)
+					if !ok {
+						continue
+					}
+					fa, ok := sto.Addr.(*ssa.FieldAddr)
+					if !ok {
+						continue
+					}
+					pt, ok := fa.X.Type().Underlying().(*types.Pointer)
+					if !ok || !types.Identical(pt.Elem(), e.RngT) {
+						continue
+					}
+					ft := st.Field(fa.Field).Type()
+					if _, isSlice := ft.Underlying().(*types.Slice); !isSlice {
+						continue
+					}
+					checked++
+					if w := okVal(sto.Val, ft, map[ssa.Value]bool{}, 0); w != "" {
+						bad = append(bad, w+" (stored at "+p.Pos(sto.Pos())+")")
+					}
+				}
+			}
+		}
+		if checked == 0 {
+			continue
+		}
+		n++
+		if len(bad) > 0 {
+			sort.Strings(bad)
+			r.Bad("R-ALLSTORED", key, p.FnPos(e.NewRng), bad[0])
+		} else {
+			r.Ok("R-ALLSTORED", key, p.FnPos(e.NewRng), fmt.Sprintf("%d stored list(s) are built by appending parse results; no function takes the parsed list and returns another", checked))
+		}
+	}
+	r.Floor("R-ALLSTORED", 20)
+}
+
+func init() {
+	register("C02", "", ruleAllStored)
+}
